@@ -10,7 +10,10 @@ src = open("/repo/src/" + file).read()
 if src.count(old) != 1:
     sys.exit("OLD occurs %d times in %s" % (src.count(old), file))
 mod = src.replace(old, new)
-d = "".join(difflib.unified_diff(src.splitlines(True), mod.splitlines(True), "a/src/" + file, "b/src/" + file))
+def _lines(t):
+    out = t.split("\n")
+    return [l + "\n" for l in out[:-1]] + ([out[-1]] if out[-1] else [])
+d = "".join(difflib.unified_diff(_lines(src), _lines(mod), "a/src/" + file, "b/src/" + file))
 os.makedirs(os.path.join(HERE, "witnesses", rule), exist_ok=True)
 p = os.path.join(HERE, "witnesses", rule, name + ".diff")
 open(p, "w").write("# expect: %s %s %s\n# note: %s\n%s" % (pid, rule, key, note, d))
